@@ -163,6 +163,10 @@ impl Decoder for ServerAeadCodec {
                 let auth_id = &src[0..16];
                 if let Some(key) = auth_id::matching(auth_id, &self.keys)? {
                     if let Some(header) = encrypt::open_header(&key, src)? {
+                        // version, iv, key, response byte, option, padding|security, reserved, command + checksum
+                        if header.len() < 1 + 16 + 16 + 5 + 4 {
+                            bail!("request header too short: {}", header.len())
+                        }
                         let data = header[..header.len() - 4].to_vec();
                         let mut header = Bytes::from(header);
                         let version = header.get_u8();
@@ -182,6 +186,9 @@ impl Decoder for ServerAeadCodec {
                         }
                         let command = if command == RequestCommand::TCP as u8 { RequestCommand::TCP } else { RequestCommand::UDP };
                         let address = address::read_address_port(&mut header)?;
+                        if header.remaining() < padding_len as usize + 4 {
+                            bail!("request header ends inside its padding")
+                        }
                         header.advance(padding_len as usize);
                         let actual = header.get_u32();
                         if fnv::fnv1a32(&data) != actual {
